@@ -1495,7 +1495,9 @@ def _tbl(t, cols=None, prefix=''):
 
 def _apers(S):
     from photutils.aperture import CircularAperture, EllipticalAperture, RectangularAperture, CircularAnnulus
-    pos = [(x, y) for x, y, _, _ in S.stars] + [(1.0, 2.0)]
+    ny, nx = S.raw.shape
+    # the stars, two apertures crossing the image edge / corner, one fully off the image
+    pos = [(x, y) for x, y, _, _ in S.stars] + [(1.0, 2.0), (nx - 1.5, 12.25), (-30.0, 5.0)]
     return [CircularAperture(pos, r=4.0), EllipticalAperture(pos, 5.0, 3.0, theta=0.5),
             RectangularAperture(pos, 6.0, 4.0, theta=0.25), CircularAnnulus(pos, 5.0, 8.0)]
 
@@ -1716,6 +1718,87 @@ ep_source_catalog.units = {'min_value': 'u', 'max_value': 'u', 'segment_flux': '
                            'table_kron_flux': 'u'}
 
 
+class Names(tuple):
+    """a non-numeric output (column names, dtype kinds) that must be identical"""
+
+
+def _tbl_full(t, prefix):
+    """columns + the column set + the dtype kind of every numeric column"""
+    out = _tbl(t, prefix=prefix)
+    if t is None:
+        out[prefix + 'columns'] = Names(('<None>',))
+        return out
+    out[prefix + 'columns'] = Names(t.colnames)
+    out[prefix + 'dtypes'] = Names(f'{c}:{t[c].dtype.kind}' for c in t.colnames if t[c].dtype.kind in 'biuf')
+    return out
+
+
+def ep_find_peaks(S):
+    """every optional argument that changes the code path, crossed with every representation:
+    npeaks below / at / above the number of peaks, centroid_func, mask, border_width, footprint vs box_size"""
+    from photutils.centroids import centroid_com
+    from photutils.detection import find_peaks
+    t0 = find_peaks(S.raw, 80.0 * S.scale, box_size=5)
+    n = 0 if t0 is None else len(t0)
+    yy, xx = np.mgrid[-2:3, -2:3]
+    fp = (np.abs(xx) + np.abs(yy)) <= 3
+    out = {}
+    for npk in sorted({1, max(1, n - 1), max(1, n), n + 3}) + [np.inf]:
+        for cen in (None, centroid_com):
+            for usemask in (False, True):
+                for bw in (None, 2):
+                    for shape in ({'box_size': 5}, {'footprint': fp}):
+                        key = (f'npeaks={npk}/{"com" if cen else "nocen"}/{"mask" if usemask else "nomask"}/'
+                               f'border={bw}/{list(shape)[0]}:')
+                        kw = dict(shape)
+                        if cen is not None:
+                            kw.update(centroid_func=cen, error=S.error)
+                        args = dict(mask=S.mask if usemask else None, border_width=bw, wcs=None, **kw)
+                        t = find_peaks(S.data, S.q(80.0), npeaks=npk, **args)
+                        if t is not None and np.isfinite(npk) and len(t) == npk:
+                            # decision margin: when the npeaks-th and the next brightest peak have the same
+                            # value the contract does not say which one is kept (numpy's argsort breaks the tie
+                            # differently for int16 and float64 keys): such variants are left out and counted
+                            full = find_peaks(S.data, S.q(80.0), **args)
+                            v = np.sort(np.asarray(strip(full['peak_value'])[0], float))[::-1]
+                            if len(v) > npk and v[npk - 1] == v[npk]:
+                                out[key + 'tie_at_truncation'] = Names(('tie',))
+                                continue
+                        if t is not None and len(t) > 1:
+                            # canonical row order (brightest first, ties by position): the order among equal
+                            # peak values is not part of the contract either
+                            pv = np.asarray(strip(t['peak_value'])[0], float)
+                            t = t[np.lexsort((np.asarray(t['x_peak']), np.asarray(t['y_peak']), -pv))]
+                            t['id'] = np.arange(len(t)) + 1
+                        out.update(_tbl_full(t, key))
+    return out
+ep_find_peaks.units = {'peak_value': 'u'}
+
+
+def ep_aperture_mask(S):
+    """ApertureMask.multiply / cutout / get_values: aperture inside, crossing an edge, crossing a corner, fully
+    off the image, x fill_value in {0, finite, nan} x mask x method"""
+    from photutils.aperture import CircularAnnulus, CircularAperture, RectangularAperture
+    ny, nx = S.raw.shape
+    x0, y0 = S.stars[0][:2]
+    pos = [(x0, y0), (1.0, 2.0), (nx - 1.5, 12.25), (12.2, ny - 0.75), (-0.4, ny - 2.0), (-30.0, 5.0)]
+    out = {}
+    for an, ap in (('circ', CircularAperture(pos, r=4.5)), ('rect', RectangularAperture(pos, 7.0, 5.0, theta=0.3)),
+                   ('ann', CircularAnnulus(pos, 3.0, 6.0))):
+        for method in ('exact', 'center'):
+            for j, m in enumerate(ap.to_mask(method=method)):
+                key = f'{an}/{method}/{j}:'
+                for fname, fill in (('0', 0.0), ('7', S.q(7.0)), ('nan', np.nan)):
+                    def none_ok(v):
+                        return np.array([]) if v is None else v
+                    out[key + f'multiply/fill={fname}'] = _try(lambda: none_ok(m.multiply(S.data, fill_value=fill)))
+                    out[key + f'cutout/fill={fname}'] = _try(lambda: none_ok(m.cutout(S.data, fill_value=fill)))
+                out[key + 'get_values'] = _try(lambda: m.get_values(S.data))
+                out[key + 'get_values/mask'] = _try(lambda: m.get_values(S.data, mask=S.mask))
+    return out
+ep_aperture_mask.all_units = 'u'
+
+
 def ep_finders(S):
     from photutils.detection import find_peaks, DAOStarFinder, IRAFStarFinder, StarFinder
     from photutils.centroids import centroid_com
@@ -1897,6 +1980,8 @@ ENTRY_POINTS = {
     'segmentation': ep_segmentation,
     'SourceCatalog': ep_source_catalog,
     'finders': ep_finders,
+    'find_peaks': ep_find_peaks,
+    'ApertureMask': ep_aperture_mask,
     'profiles': ep_profiles,
     'PSFPhotometry': ep_psf_photometry,
     'psf_fit_utils': ep_psf_utils,
@@ -1924,6 +2009,8 @@ def strip(v):
 
 
 def compare(ref, got, tol_kind, floor=1.0):
+    if isinstance(ref, Names) or isinstance(got, Names):
+        return None if tuple(ref) == tuple(got) else f'{tuple(got)} instead of {tuple(ref)}'
     """returns None if equal else message.  tol_kind: 'exact' | 'f32' | 'intround'"""
     if isinstance(got, Raised):
         return 'raises ' + got.msg
@@ -2162,6 +2249,8 @@ def compare_entry(name, rep, ref, got):
         if isinstance(g, Raised):
             probs.append(('raises', k, g.msg))
             continue
+        if cls == 'integer' and k.endswith(':dtypes'):
+            continue          # values read from an integer image keep its integer dtype
         if cls == 'float32' and k in getattr(f, 'ill_conditioned_in_float32', ()):
             continue          # fits of residual-noise detections: float32 rounding is amplified without bound
         m = compare(r, g, 'tight' if tight and k not in FLOAT32_EXACT_EXCEPT else tol)
@@ -2173,7 +2262,11 @@ def compare_entry(name, rep, ref, got):
             base = k.split(':')[-1]
             un = getattr(f, 'units', {})
             exp = getattr(f, 'all_units', None) or un.get(k) or un.get(base) or un.get(base.rstrip('_0123456789'))
+            if isinstance(g, Names):
+                continue
             gotu = strip(g)[1]
+            if np.size(strip(g)[0]) == 0 and gotu is None:
+                continue      # nothing that could carry a unit (no overlap with the image)
             if exp == 'u' and gotu != UNIT:
                 probs.append(('unit', k, f'unit {gotu}, expected {UNIT}'))
             if exp == 'u2' and gotu != UNIT ** 2:
@@ -2192,6 +2285,10 @@ def product_one(ctx, sc, name, reps, found):
         cls = REP_CLASS[rep]
         ctx.count_case(['prod', name, rep, sc['stars']])
         ctx.stat('product_reps', rep)
+        if st == 'ok' and got:
+            nt = sum(1 for k in got if k.endswith('tie_at_truncation'))
+            if nt:
+                ctx.stat('product', 'find_peaks_variants_excluded_tie_at_truncation', nt)
         if st == 'ok' and got is None:
             continue
         if st != 'ok':
